@@ -141,7 +141,7 @@ def check_c09(idx: Index, tier: str, res: Result) -> None:
     res.check("STEP", "steps are served through the stop time inclusive", ok, rs.loc(stop[0]) if stop else rs.loc(), rs.qual, src(stop[0].test) if stop else "",
               "the stop test is %s: the session must serve the stop time itself and nothing after it" % (src(stop[0].test) if stop else "missing"),
               key="STEP/run_step/stop-test")
-    calls = [c for c in iter_calls(rs.node) if call_name(c) == "run_scenario_step" and isinstance(c.func.value, ast.Name) and c.func.value.id == "runner"]
+    calls = [c for c in iter_calls(rs.node) if call_name(c) == "run_scenario_step" and isinstance(c.func, ast.Attribute)]
     sdcall = [c for c in calls if any(k.arg == "settings" for k in c.keywords)]
     ok = bool(sdcall) and all({k.arg: src(k.value) for k in c.keywords}.get("step") == "step" and
                              {k.arg: src(k.value) for k in c.keywords}.get("settings") == "settings" and
@@ -203,32 +203,27 @@ def check_c09(idx: Index, tier: str, res: Result) -> None:
     gen = idx.try_func(RUNNER, "SdRunner.__generate_df")
     if gen is None:
         raise AnalysisError("anchor vanished: SdRunner.__generate_df")
+    from ..util import expand_aliases
+    gexp = expand_aliases(gen.node)                 # row aliases and named intermediates (df, series) written out
     vals = []
-    for n in walk_no_nested(gen.node):
+    for n in walk_no_nested(gexp):
         if isinstance(n, ast.Assign):
             t = n.targets[0]
-            if isinstance(t, ast.Subscript) and src(t).endswith('["equations"][equation]') or (isinstance(t, ast.Subscript) and src(t).endswith("['equations'][equation]")):
-                vals.append((n, n.value))
-            if isinstance(t, ast.Name) and t.id == "series":
-                vals.append((n, n.value))
+            if isinstance(t, ast.Subscript) and src(t).replace("'", '"').endswith('["equations"][equation]'):
+                vals.append((n, n.value, "dict/json"))
+            if isinstance(t, ast.Subscript) and src(t.value) == "plot_df":
+                vals.append((n, n.value, "df"))
     if len(vals) < 3:
         raise AnalysisError("__generate_df: expected three result stores (df/dict/json), found %d" % len(vals))
-    for n, v in vals:
+    SERIES = "scenarios[scenario].result[equation]"
+    for n, v, fmt in vals:
         base = v
         if isinstance(base, ast.Call) and call_name(base) == "to_dict" and not base.args:
             base = base.func.value
-        ok = src(base) == "df[equation]"
-        res.check("SERIES", "%s comes from df[equation]" % norm_stmt(n)[-60:], ok, gen.loc(n), gen.qual, src(v)[:80],
-                  "a result format is filled from %s instead of the scenario frame's column df[equation]: the formats disagree" % src(v)[:60],
-                  key="SERIES/__generate_df/%s" % src(v)[:40])
-    pl = [n for n in walk_no_nested(gen.node) if isinstance(n, ast.Assign) and isinstance(n.targets[0], ast.Subscript) and src(n.targets[0].value) == "plot_df"]
-    ok = len(pl) == 1 and src(pl[0].value) == "series"
-    res.check("SERIES", "the dataframe column is the same series", ok, gen.loc(), gen.qual, norm_stmt(pl[0]) if pl else "", "plot_df is filled from %s" % (src(pl[0].value) if pl else "?"),
-              key="SERIES/__generate_df/plot_df")
-    dfsrc = [n for n in walk_no_nested(gen.node) if isinstance(n, ast.Assign) and isinstance(n.targets[0], ast.Name) and n.targets[0].id == "df"]
-    ok = len(dfsrc) == 1 and src(dfsrc[0].value) == "scenarios[scenario].result"
-    res.check("SERIES", "df is the scenario's simulation result", ok, gen.loc(), gen.qual, norm_stmt(dfsrc[0]) if dfsrc else "", "df is %s" % (src(dfsrc[0].value) if dfsrc else "?"),
-              key="SERIES/__generate_df/df")
+        ok = src(base) == SERIES
+        res.check("SERIES", "%s result comes from the scenario frame's column" % fmt, ok, gen.loc(n), gen.qual, src(v)[:80],
+                  "the %s result is filled from %s instead of the scenario frame's column %s: the formats disagree" % (fmt, src(v)[:60], SERIES),
+                  key="SERIES/__generate_df/%s/%s" % (fmt, src(v)[:40]))
     # SdSimulation.start: the frame is built from the results table as is
     stf = idx.func(SDSIM, "SdSimulation.start")
     fr = [n for n in walk_no_nested(stf.node) if isinstance(n, ast.Assign) and dotted(n.targets[0]) == "self.result_frame" and isinstance(n.value, ast.Call)]
@@ -243,7 +238,13 @@ def check_c09(idx: Index, tier: str, res: Result) -> None:
     for hname in ("_run_resource", "_run_step_resource", "_run_steps_resource", "_session_results_resource"):
         fi = idx.func(SERVER, "BptkServer.%s" % hname)
         nh += _passthrough(res, fi, API, SERIALISERS)
-    st_ = idx.func(SERVER, "BptkServer._stream_steps_resource.streamer")
+    # the generator the streaming handler hands to Response: by role (the nested generator function), whatever it is called
+    sh = idx.func(SERVER, "BptkServer._stream_steps_resource")
+    gens = [f for q, f in idx.modules[SERVER].functions.items() if q.startswith(sh.qual + ".") and
+            any(isinstance(y, (ast.Yield, ast.YieldFrom)) for y in walk_no_nested(f.node))]
+    if len(gens) != 1:
+        raise AnalysisError("anchor: the streaming handler %s has %d nested generators (expected the one it streams from)" % (sh.qual, len(gens)))
+    st_ = gens[0]
     nh += _passthrough(res, st_, API, SERIALISERS | {"progress"})
     res.floor("REST handlers checked for pass-through", nh, 5)
     rr = idx.func(SERVER, "BptkServer._run_resource")
